@@ -3,16 +3,17 @@
    usage: trymut.py <patch.diff> [--tier quick] <ID> [<ID> ...]
 Prints one line per check: DETECTED / MISSED / MACHINERY."""
 import subprocess, sys, os
+REPO = os.environ.get("TRYMUT_REPO", REPO)
 ROOT = os.path.dirname(os.path.dirname(os.path.abspath(__file__)))
 args = sys.argv[1:]
 patch = os.path.abspath(args[0]); args = args[1:]
 tier = "quick"
 if args and args[0] == "--tier":
     tier = args[1]; args = args[2:]
-st = subprocess.run(["git", "-C", "/repo", "status", "--porcelain", "--untracked-files=no"], stdout=subprocess.PIPE, text=True).stdout
+st = subprocess.run(["git", "-C", REPO, "status", "--porcelain", "--untracked-files=no"], stdout=subprocess.PIPE, text=True).stdout
 if st.strip():
-    sys.exit("refusing: /repo has uncommitted changes:\n" + st)
-r = subprocess.run(["git", "-C", "/repo", "apply", patch])
+    sys.exit("refusing: the repository has uncommitted changes:\n" + st)
+r = subprocess.run(["git", "-C", REPO, "apply", patch])
 if r.returncode != 0:
     sys.exit("patch does not apply")
 try:
@@ -25,7 +26,7 @@ try:
         if verdict == "MACHINERY":
             print("\n".join(lines[-12:]))
 finally:
-    subprocess.run(["git", "-C", "/repo", "checkout", "--", "."])
-    subprocess.run(["git", "-C", "/repo", "clean", "-fdq", "src", "macros", "tests"])
+    subprocess.run(["git", "-C", REPO, "checkout", "--", "."])
+    subprocess.run(["git", "-C", REPO, "clean", "-fdq", "src", "macros", "tests"])
     # evidence files were rewritten by the runs on the mutated tree: restore committed ones
     subprocess.run(["git", "-C", ROOT, "checkout", "--", "evidence"], stderr=subprocess.DEVNULL)
